@@ -38,11 +38,12 @@ func (m *JCModel) Distance(seq1 []uint8, seq2 []uint8, weights []float64) (float
 	} else {
 		dist = -.75 * math.Log(b)
 	}
-	if dist > 0 {
-		return dist, nil
-	} else {
+	// Negative values (and -0) are clamped to 0; an undefined (NaN)
+	// estimator of a saturated pair is returned as it is
+	if dist <= 0 {
 		return 0, nil
 	}
+	return dist, nil
 }
 
 func (m *JCModel) InitModel(al align.Alignment, weights []float64, gamma bool, alpha float64) (err error) {
